@@ -102,6 +102,22 @@ class Size:
             tot += v
         return tot
 
+    def lower_bound(self):
+        """a lower bound of the polynomial over all admissible atom values (generic atoms >= 2, free atoms >= 1); None if a
+        non-constant term has a negative coefficient"""
+        tot = 0
+        for m, c in self.terms.items():
+            if not m:
+                tot += c
+                continue
+            if c < 0:
+                return None
+            v = c
+            for a, e in m:
+                v *= (1 if (self.reg is not None and a in self.reg.free) else 2) ** e
+            tot += v
+        return tot
+
     def _reg(self, o):
         return self.reg or (o.reg if isinstance(o, Size) else None)
 
@@ -251,6 +267,19 @@ class Size:
                     return op in ('>', '>=')
                 if self.is_const() and self.const() <= 0 and all(c > 0 for c in o.terms.values()):
                     return op in ('<', '<=')
+            d_ = self - o
+            if isinstance(d_, Size):
+                lb, ub = d_.lower_bound(), (-d_).lower_bound()
+                if lb is not None:
+                    if lb > 0:
+                        return op in ('>', '>=')
+                    if lb >= 0 and op in ('>=', '<'):
+                        return op == '>='
+                if ub is not None:
+                    if ub > 0:
+                        return op in ('<', '<=')
+                    if ub >= 0 and op in ('<=', '>'):
+                        return op == '<='
             if dominates(self, o):        # self >= o for all positive integer values of the atoms, and self != o structurally
                 strict = dominates(self - 1, o) if not isinstance(self - 1, int) else False
                 if op == '>=':
